@@ -2521,9 +2521,12 @@ fn write_eh_frame_relocations<'data, A: Arch<Platform = Elf>, R: Relocation>(
                     // This relocation belongs to the next entry.
                     break;
                 }
+                let Some(offset_in_entry) = rel_offset.checked_sub(input_pos as u64) else {
+                    bail!(".eh_frame relocations aren't sorted by offset");
+                };
                 apply_relocation::<A, R, _>(
                     object,
-                    rel_offset - input_pos as u64,
+                    offset_in_entry,
                     rel,
                     SectionInfo {
                         section_address: output_pos as u64 + table_writer.eh_frame_start_address,
